@@ -534,9 +534,39 @@ func genC16(t *rapid.T, p *gen.Profile) *C16Case {
 		case 2:
 			s.Before = strings.TrimSuffix(s.Before, " ") + rapid.SampledFrom([]string{" = 5 ", "  == 0 "}).Draw(t, "assertonly") // an amount without commodity, then an assertion
 		}
+		// less common places where a commodity is written (each can be switched off as a known finding)
+		acct := pick(t, names.accounts.all, "assets:cash", "acct2")
+		leftPlace, beforeLeft := false, ""
+		switch w := rapid.IntRange(0, 11).Draw(t, "commodityplace"); {
+		case w == 0 && !p.Off("c16.commodity.assertion-only-posting"):
+			s.Before = indent + acct + "  " + rapid.SampledFrom([]string{"= 5 ", "== 10.50 "}).Draw(t, "aop")
+		case w == 1 && !p.Off("c16.commodity.number-grouped-by-blank"):
+			s.Before = indent + acct + "  " + rapid.SampledFrom([]string{"1 000,00 ", "12 345 ", "1e3 ", "2.5E2 "}).Draw(t, "numform")
+		case w == 2 && !p.Off("c16.commodity.tab-before-amount"):
+			s.Before = indent + acct + "\t" + rapid.SampledFrom([]string{"5 ", "-10.50 "}).Draw(t, "tabnum")
+		case w == 3 && !p.Off("c16.commodity.left-of-amount"):
+			leftPlace, beforeLeft = true, s.Before
+			s.Before = indent + acct + rapid.SampledFrom([]string{"  ", "    ", "  -"}).Draw(t, "leftsep")
+		case w == 4 && !p.Off("c16.commodity.price-directive"):
+			s.Header = ""
+			s.Before = rapid.SampledFrom([]string{"P 2024-01-01 ", "P 2024-01-01 ZZZ 1.10 ", "P 2024/01/01 ZZZ 1,10 "}).Draw(t, "pdir")
+		case w == 5 && !p.Off("c16.commodity.default-directive"):
+			s.Header = ""
+			s.Before = rapid.SampledFrom([]string{"D 1,000.00 ", "D 1.000,00 "}).Draw(t, "ddir")
+		case w == 6 && !p.Off("c16.commodity.directive-number-first"):
+			s.Header = ""
+			s.Before = rapid.SampledFrom([]string{"commodity 1,000.00 ", "commodity 1.000,00 "}).Draw(t, "cdir")
+		}
 		s.Fragment = genFragment(t, pick(t, names.commodities.all, "EUR", "name"))
 		if strings.ContainsAny(s.Fragment, " \"") {
 			s.Fragment = "" // a quoted commodity is not typed letter by letter
+		}
+		if i := strings.IndexAny(s.Fragment, ":,"); i >= 0 {
+			s.Fragment = s.Fragment[:i] // no part of a commodity's name
+		}
+		s.Fragment = strings.TrimLeft(s.Fragment, ".") // a name does not begin with a point
+		if leftPlace && s.Fragment == "" {
+			s.Before = beforeLeft // with nothing typed after the account the place is not a commodity's yet
 		}
 	case "commodity-directive":
 		s.Before = "commodity "
@@ -544,6 +574,10 @@ func genC16(t *rapid.T, p *gen.Profile) *C16Case {
 		if strings.ContainsAny(s.Fragment, " \"") {
 			s.Fragment = ""
 		}
+		if i := strings.IndexAny(s.Fragment, ":,"); i >= 0 {
+			s.Fragment = s.Fragment[:i]
+		}
+		s.Fragment = strings.TrimLeft(s.Fragment, ".")
 	case "tagname":
 		s.Header, s.Before = c16CommentLine(t, names, header, indent)
 		s.Fragment = genFragment(t, pick(t, names.tags.all, "k", "name"))
